@@ -85,6 +85,13 @@ Definition isabs (path : list Z) : bool :=
 Definition canonicalize (path : list Z) : list Z :=
   if isabs path then normpath path else normpath (SLASH :: path).
 
+(* ---- SFTPServer._process, CMD_REALPATH branch -------------------------------- *)
+(* rpath = self.server.canonicalize(path): the reply is a function of the session's own interface and the
+   requested path; `history` = every REALPATH request any session of the process handled before (gen/c34.py
+   checks on each run that the branch has exactly this shape: G_REALPATH_STATELESS) *)
+Definition realpath_reply (canon : list Z -> list Z) (history : list (list Z * list Z)) (path : list Z) : list Z :=
+  if G_REALPATH_STATELESS then canon path else canon path.
+
 (* ---- what the theorems talk about ------------------------------------------- *)
 (* the components a path names: split on '/', empty ones (repeated / leading / trailing
    separators) carry no meaning *)
